@@ -599,8 +599,8 @@ class Keyvalues:
                 # We know this isn't a leaf KV, we made it earlier.
                 assert not isinstance(cur_block._value, str)
                 cur_block_contents = cur_block._value
-                # For replacing the block.
-                can_flag_replace = True
+                # For replacing the block - if it wasn't skipped by its flag.
+                can_flag_replace = bool(cur_block_contents)
             else:
                 raise tokenizer.error(token_type, token_value)
 
